@@ -216,11 +216,80 @@ Proof.
   simpl in H; try discriminate; inversion H; try exact I.
 Qed.
 
+(* ---------- builtins on untyped constants: real, imag, complex (fix C04-7) ---------- *)
+Definition component (f : builtin1) (x : lit) : Q := match f with BReal => re_of x | BImag => im_of x end.
+
+(* real(x), imag(x) of a numeric constant of ANY kind: accepted, the result is an untyped FLOAT constant (never an
+   integer, whatever the representation of the component) holding exactly the real / imaginary part *)
+Lemma real_imag_exact (f : builtin1) (x : lit) : wf x -> numeric x ->
+  exists z, real_imag_untyped f x = Some z /\ wf z /\ lkind z = KFloat /\
+            (re_of z == component f x)%Q /\ (im_of z == 0)%Q.
+Proof.
+  intros Hx Nx. wf_cases x; destruct f;
+    (eexists; split; [reflexivity|]; unfold wf, re_of, im_of, component; simpl; repeat split; reflexivity).
+Qed.
+
+Lemma real_imag_non_numeric (f : builtin1) (x : lit) : ~ numeric x -> real_imag_untyped f x = None.
+Proof.
+  unfold numeric, real_imag_untyped. destruct (class_of x); intros H; try reflexivity. exfalso; apply H; reflexivity.
+Qed.
+
+Lemma real_imag_wf f x z : wf x -> real_imag_untyped f x = Some z -> wf z.
+Proof.
+  intros Hx. unfold real_imag_untyped.
+  wf_cases x; destruct f; simpl; intros H; inversion H; exact I.
+Qed.
+
+Lemma complex_arg_ok_spec (x : lit) : wf x -> (complex_arg_ok x = true <-> numeric x /\ (im_of x == 0)%Q).
+Proof.
+  intros Hx. destruct x as [k v]; destruct k, v; unfold wf in Hx; simpl in Hx; try contradiction;
+    unfold complex_arg_ok, numeric, class_of, im_of; simpl.
+  - split; [discriminate|intros [N _]; discriminate].
+  - split; [intros _; split; reflexivity|reflexivity].
+  - split; [intros _; split; reflexivity|reflexivity].
+  - split; [intros _; split; reflexivity|reflexivity].
+  - rewrite Qzero_spec. split; [intros H; split; [reflexivity|exact H]|intros [_ H]; exact H].
+  - split; [discriminate|intros [N _]; discriminate].
+Qed.
+
+(* complex(x, y): accepted iff both operands are numeric constants with a zero imaginary part;
+   the result is the untyped complex constant  re x + (re y) i *)
+Lemma complex_exact (x y : lit) : wf x -> wf y ->
+  (numeric x /\ (im_of x == 0)%Q /\ numeric y /\ (im_of y == 0)%Q ->
+     exists z, complex_untyped x y = Some z /\ wf z /\ lkind z = KComplex /\
+               (re_of z == re_of x)%Q /\ (im_of z == re_of y)%Q) /\
+  (~ (numeric x /\ (im_of x == 0)%Q /\ numeric y /\ (im_of y == 0)%Q) -> complex_untyped x y = None).
+Proof.
+  intros Hx Hy. pose proof (complex_arg_ok_spec x Hx) as Sx. pose proof (complex_arg_ok_spec y Hy) as Sy.
+  split.
+  - intros (Nx & Ix & Ny & Iy).
+    assert (Ox: complex_arg_ok x = true) by (apply Sx; split; assumption).
+    assert (Oy: complex_arg_ok y = true) by (apply Sy; split; assumption).
+    unfold complex_untyped. rewrite Ox, Oy. clear Sx Sy Ox Oy.
+    wf_cases x; wf_cases y; unfold im_of, re_of in *; simpl in *;
+      (eexists; split; [reflexivity|]; unfold wf, re_of, im_of; simpl; repeat split; try reflexivity;
+       try (rewrite ?Ix, ?Iy; qsolve); try (rewrite ?Ix, ?Iy; ring)).
+  - intros H. clear Sx Sy. unfold complex_untyped.
+    destruct (complex_arg_ok x) eqn:Ox; [|reflexivity].
+    destruct (complex_arg_ok y) eqn:Oy; [|reflexivity].
+    exfalso. apply H.
+    apply (proj1 (complex_arg_ok_spec x Hx)) in Ox. apply (proj1 (complex_arg_ok_spec y Hy)) in Oy. tauto.
+Qed.
+
+Lemma complex_wf x y z : wf x -> wf y -> complex_untyped x y = Some z -> wf z.
+Proof.
+  intros Hx Hy. unfold complex_untyped.
+  destruct (complex_arg_ok x && complex_arg_ok y); [|discriminate].
+  wf_cases x; wf_cases y; unfold binop_c; simpl; intros H; try discriminate; inversion H; exact I.
+Qed.
+
 Fixpoint lits_wf (e : expr) : Prop :=
   match e with
   | ELit l => wf l
   | EUn _ x => lits_wf x
   | EBin _ x y => lits_wf x /\ lits_wf y
+  | ECall1 _ x => lits_wf x
+  | ECplx x y => lits_wf x /\ lits_wf y
   end.
 
 Lemma eval_wf e : forall z, lits_wf e -> eval e = Some z -> wf z.
@@ -231,4 +300,8 @@ Proof.
   - destruct H as [H1 H2].
     destruct (eval e1) eqn:E1; [|discriminate]. destruct (eval e2) eqn:E2; [|discriminate].
     eapply binary_wf; [| |exact E]; eauto.
+  - destruct (eval e) eqn:E1; [|discriminate]. eapply real_imag_wf; [|exact E]. eapply IHe; eauto.
+  - destruct H as [H1 H2].
+    destruct (eval e1) eqn:E1; [|discriminate]. destruct (eval e2) eqn:E2; [|discriminate].
+    eapply complex_wf; [| |exact E]; eauto.
 Qed.
